@@ -50,8 +50,13 @@ class Engine(_Base, ExprMixin, CallMixin, StmtMixin):
                 for c in comp.ifs:
                     (s2, cv), = self.eval(st, c)
                     conds.append(self.truth(st, cv))
-                (s2, v), = self.eval(st, elt)
-                b = self.truth(st, v)
+                n0 = len(st.pc)
+                res = [(s2, v) for s2, v in self.eval(st, elt) if s2.exc is None]
+                if len(res) == 1:
+                    b = self.truth(st, res[0][1])
+                else:
+                    # the element expression forks (e.g. dict.get): its paths are exclusive and exhaustive
+                    b = z3.Or(*[z3.And(*(list(s2.pc[n0:]) + [self.truth(s2, v)])) for s2, v in res]) if res else z3.BoolVal(False)
             finally:
                 self.spec_mode -= 1
                 st.cur = save
@@ -336,8 +341,9 @@ class Engine(_Base, ExprMixin, CallMixin, StmtMixin):
         if '*' in mods:
             return None
         fields, dicts, lists, all_lists = {}, [], [], '*lists' in mods
+        all_dicts = '*dicts' in mods
         for m in mods:
-            if m == '*lists':
+            if m in ('*lists', '*dicts'):
                 continue
             if m.startswith('field:'):
                 fields[m[6:]] = None
@@ -354,7 +360,7 @@ class Engine(_Base, ExprMixin, CallMixin, StmtMixin):
                 v = self.spec_val(entry.copy(), text, env=env)
                 v = v.some() if isinstance(v, VOpt) else v
                 (dicts if kind == 'dict' else lists).append(v.t)
-        return fields, dicts, lists, all_lists
+        return fields, (None if all_dicts else dicts), lists, all_lists
 
     def frame_goal(self, sets, key, now, was, alloc0):
         """formula: heap map `now` differs from `was` only at allowed or newly allocated objects (None: unrestricted)"""
@@ -364,6 +370,8 @@ class Engine(_Base, ExprMixin, CallMixin, StmtMixin):
             if key[1] in fields and allowed is None:
                 return None
         elif key[0] in ('dd', 'dv'):
+            if dicts is None:
+                return None
             allowed = dicts
         elif key[0] in ('ll', 'le', 'lj'):
             if all_lists:
